@@ -210,3 +210,65 @@ theorem step_ok {C : Crypto} (hC : AeadOK C) (r : Reader) (cs : List Bytes) (hs 
   | tunnel => exact copy_ok hC r cs hs _ (Or.inr rfl)
 
 end SSV.Stream
+
+namespace SSV.Stream
+open SSV.Gen.C01
+
+/-- the sink keeps the `io.Writer` contract: it takes fewer bytes than offered only together with an error -/
+def SinkOK (sink : List SinkRes) : Prop := ∀ r ∈ sink, r.err = true ∨ streamMaxPayloadSize ≤ r.accept
+
+theorem sinkWrite_ok {sink : List SinkRes} (h : SinkOK sink) (p : Bytes) (hp : p.length ≤ streamMaxPayloadSize) :
+    (∃ rest, p = (sinkWrite sink p).1 ++ rest) ∧ ((sinkWrite sink p).2.1 = false → (sinkWrite sink p).1 = p) ∧
+    SinkOK (sinkWrite sink p).2.2 := by
+  cases sink with
+  | nil => exact ⟨⟨[], by simp [sinkWrite]⟩, fun _ => rfl, h⟩
+  | cons r rest =>
+    refine ⟨⟨p.drop r.accept, by simp [sinkWrite]⟩, fun he => ?_, fun x hx => h x (List.mem_cons_of_mem _ hx)⟩
+    rcases h r List.mem_cons_self with h1 | h1
+    · simp [sinkWrite, h1] at he
+    · simp only [sinkWrite]
+      exact List.take_of_length_le (by omega)
+
+/-- `WriteTo` into any contract-keeping sink: what the sink took is a prefix of the pending stream
+(nothing repeated, nothing out of order); if the sink never failed, it took everything -/
+theorem copyLoopSink_prefix {C : Crypto} (hC : AeadOK C) (cs : List Bytes) :
+    ∀ (fuel : Nat) (r : Reader) (sink : List SinkRes) (acc : List Bytes), Sync C r cs → SinkOK sink → cs.length < fuel →
+      ∃ pieces e, (copyLoopSink C fuel r sink acc).1 = .copied (acc.reverse ++ pieces) e ∧
+        (∃ rest, cs.flatten = pieces.flatten ++ rest) ∧ (e = none → pieces.flatten = cs.flatten) ∧
+        (e = none ∨ e = some .sinkErr) := by
+  induction cs with
+  | nil =>
+    intro fuel r sink acc hs _ hf
+    obtain ⟨f, rfl⟩ : ∃ f, fuel = f + 1 := ⟨fuel - 1, by omega⟩
+    have hw : r.wire = [] := by simpa [encodeChunks] using hs.wire
+    exact ⟨[], none, by simp [copyLoopSink, hw, readChunk_nil], ⟨[], rfl⟩, fun _ => rfl, Or.inl rfl⟩
+  | cons p ps ih =>
+    intro fuel r sink acc hs hk hf
+    obtain ⟨f, rfl⟩ : ∃ f, fuel = f + 1 := ⟨fuel - 1, by omega⟩
+    have hp := hs.valid p List.mem_cons_self
+    have hw : r.wire = sealChunk C r.key r.nonce p ++ encodeChunks C r.key (r.nonce + 2) ps := by
+      simpa [encodeChunks] using hs.wire
+    have hs' : Sync C { r with nonce := r.nonce + 2, wire := encodeChunks C r.key (r.nonce + 2) ps } ps :=
+      ⟨rfl, hs.valid.tail⟩
+    obtain ⟨⟨rest0, hpre⟩, hfull, hk'⟩ := sinkWrite_ok hk p hp.2
+    by_cases he : (sinkWrite sink p).2.1 = true
+    · refine ⟨[(sinkWrite sink p).1], some .sinkErr, ?_⟩
+      refine And.intro ?_ (And.intro ?_ (And.intro ?_ ?_))
+      · simp [copyLoopSink, hw, readChunk_sealChunk hC _ _ _ _ hp.1 hp.2, he]
+      · refine ⟨rest0 ++ ps.flatten, ?_⟩
+        simp only [List.flatten_cons, List.flatten_nil, List.append_nil]
+        rw [← List.append_assoc, ← hpre]
+      · intro h; cases h
+      · exact Or.inr rfl
+    · have he' : (sinkWrite sink p).2.1 = false := by simpa using he
+      have ha := hfull he'
+      obtain ⟨pieces, e, h1, ⟨rest, h2⟩, h3, h4⟩ := ih f _ (sinkWrite sink p).2.2 ((sinkWrite sink p).1 :: acc) hs' hk' (by simp at hf; omega)
+      refine ⟨(sinkWrite sink p).1 :: pieces, e, ?_⟩
+      refine And.intro ?_ (And.intro ?_ (And.intro (fun h => ?_) h4))
+      · simp only [copyLoopSink, hw, readChunk_sealChunk hC _ _ _ _ hp.1 hp.2, he', Bool.false_eq_true, ↓reduceIte]
+        rw [h1]
+        simp
+      · exact ⟨rest, by simp only [List.flatten_cons, ha, h2, List.append_assoc]⟩
+      · simp only [List.flatten_cons, ha, h3 h]
+
+end SSV.Stream
